@@ -181,10 +181,15 @@ type gconfig struct {
 	ComposeFailAt int
 	GateableAt    int
 	SendFailAt    int
+	DefaultExp    bool // Expiration left unset: the documented default (10 s, the same value the model uses) applies
 }
 
 func (c gconfig) String() string {
-	return fmt.Sprintf("sender=%v composeFailAt=%d gateableAt=%d sendFailAt=%d", c.Sender, c.ComposeFailAt, c.GateableAt, c.SendFailAt)
+	s := fmt.Sprintf("sender=%v composeFailAt=%d gateableAt=%d sendFailAt=%d", c.Sender, c.ComposeFailAt, c.GateableAt, c.SendFailAt)
+	if c.DefaultExp {
+		s += " expiration=unset"
+	}
+	return s
 }
 
 func stepsString(h []gstep) string {
@@ -223,6 +228,9 @@ type session struct {
 func newSession(cfg gconfig) *session {
 	e := &env{composeFailAt: cfg.ComposeFailAt, gateableAt: cfg.GateableAt, sendFailAt: cfg.SendFailAt}
 	f := &gated.Filter{Expiration: expiration * time.Second, NowFunc: e.now}
+	if cfg.DefaultExp {
+		f.Expiration = 0
+	}
 	if cfg.Sender {
 		f.Broker = &recSender{e}
 	}
